@@ -50,21 +50,48 @@ def run_cases(engname, pid, tier, seed, n, corpus_cases, procs):
 
 
 def drive_and_diff(eng, results):
-    """Feed all cases to one driver process; returns list of disagreements."""
+    """Feed all cases to the model driver; returns list of disagreements.  Every case starts with `reset`, so
+    the cases are split over several driver processes that run concurrently (the output is stitched back
+    in order)."""
     lines = []
     spans = []
+    starts = []             # index in `lines` of each case's `reset`
     for r in results:
         if r['error'] or not r['lines']:
             spans.append(None)
             continue
+        starts.append(len(lines))
         lines.append('reset')
         start = len(lines)
         lines.extend(r['lines'])
         spans.append((start, len(lines)))
     if not lines:
         return [], 0
-    d = fw.run_driver(eng.DRIVER, lines)
-    out = d['out']
+    nproc = max(1, min(8, (os.cpu_count() or 2) // 2, len(lines) // 4000 + 1))
+    if nproc == 1:
+        d = fw.run_driver(eng.DRIVER, lines)
+        out = d['out']
+    else:
+        # chunk boundaries at case starts, balanced by line count
+        target = len(lines) / float(nproc)
+        bounds = [0]
+        for st in starts:
+            if st - bounds[-1] >= target and len(bounds) < nproc:
+                bounds.append(st)
+        bounds.append(len(lines))
+        chunks = [lines[bounds[i]:bounds[i + 1]] for i in range(len(bounds) - 1)]
+        from concurrent.futures import ThreadPoolExecutor
+        with ThreadPoolExecutor(max_workers=len(chunks)) as ex:
+            ds = list(ex.map(lambda ch: fw.run_driver(eng.DRIVER, ch), chunks))
+        out = []
+        d = {'rc': 0, 'err': ''}
+        for ch, di in zip(chunks, ds):
+            o = di['out']
+            if di['rc'] != 0 and len(o) < len(ch):
+                d = di
+                fw.log('driver rc=%s stderr=%s' % (di['rc'], di['err']))
+            # keep positions aligned even if a driver stopped early
+            out.extend(o[:len(ch)] + ['<no output: driver stopped>'] * max(0, len(ch) - len(o)))
     if d['rc'] != 0 and len(out) < len(lines):
         fw.log('driver rc=%s stderr=%s' % (d['rc'], d['err']))
     cmp = getattr(eng, 'cmp', None)
